@@ -18,6 +18,9 @@ VERIF = os.path.dirname(os.path.abspath(__file__))
 REPO = os.environ.get("VERIF_REPO", "/repo")
 BUILD = os.path.join(VERIF, "build")
 EVID = os.path.join(VERIF, "evidence")
+if os.path.realpath(REPO) != "/repo":
+    # checks pointed at a scratch tree (seeded-defect evaluation) must not overwrite the real evidence
+    EVID = os.path.join(VERIF, "build", "tmp", "evidence-alt")
 SRC = os.path.join(VERIF, "src")
 NCPU = os.cpu_count() or 4
 
